@@ -10,7 +10,7 @@ META = {
                 "functions)", "window / wsymm StrategyDicts and their .periodic / .symm cross links and aliases"],
   "bounds": {"quick": "sizes 1..8 (case-split; the size stays an exact symbolic-constant integer inside the formulas), blackman "
                       "alpha symbolic in [0, 1/4], cos alpha in {1, 2, 3}; overlap sums for hop=size/2 and size/4 where size allows",
-             "thorough": "sizes 1..16 (blackman 1..10, cos 1..12 / 1..10 / 1..8 for alpha 1 / 2 / 3)"},
+             "thorough": "sizes 1..16 (blackman 1..10, cos 1..10 / 1..8 / 1..8 for alpha 1 / 2 / 3)"},
   "outside": "IEEE exactness beyond congruence (e.g. window.blackman(4)[0] evaluates to -1.4e-17 in floats; exact value 0), "
              "non-integer alpha of the cos window, blackman alpha above 1/4 (the window leaves [0,1] there)",
   "stubs": ["cos/sin/pi inside each generated function's globals: pi is an exact 'q*pi' object, cos/sin of rational multiples of pi "
@@ -190,7 +190,7 @@ def tasks(tier, seed):
   # cos ** alpha: the angles n*pi/size of all sizes up to N are linked by double-angle facts; beyond size 12 single paths
   # need minutes of nlsat time (the thorough run on a loaded machine lost 17 paths to the 90 s per-path watchdog)
   for a in (1, 2, 3):
-    T.append(("h_window", {"name": "cos", "N": (12 if a == 1 else 10 if a == 2 else 8) if big else (N if a == 1 else min(N, 10)), "alpha": a},
+    T.append(("h_window", {"name": "cos", "N": (10 if a == 1 else 8) if big else (N if a == 1 else min(N, 10)), "alpha": a},
               {"path_s": 900} if big else {}))
   for name in ("hann", "hamming", "rect", "bartlett"):
     T.append(("h_cola", {"name": name, "div": 2, "K": N // 2}))
